@@ -182,11 +182,28 @@ pub fn clean_frame(f: &str) -> String {
 }
 
 impl PanicInfo {
+    /// The panic was raised by code of the repository (its source location is
+    /// inside the repository, or an asefile frame is on the backtrace).
     pub fn in_library(&self) -> bool {
-        self.asefile_frame.is_some()
+        self.asefile_frame.is_some() || self.repo_file().is_some()
     }
+    /// repository-relative source file of the panic location (no line number)
+    pub fn repo_file(&self) -> Option<String> {
+        let repo = std::env::var("ASEMON_REPO").unwrap_or_else(|_| "/repo".into());
+        let file = self.location.rsplit_once(':').map(|x| x.0).unwrap_or(&self.location);
+        for root in [repo.as_str(), "/repo"] {
+            if let Some(rest) = file.strip_prefix(root) {
+                return Some(rest.trim_start_matches('/').to_string());
+            }
+        }
+        None
+    }
+    /// kind | site | message with digits normalised; the site is the repository
+    /// source file of the panic (or the first asefile frame when the panic was
+    /// raised inside a dependency). Line numbers are not part of a signature.
     pub fn signature(&self) -> String {
-        format!("panic|{}|{}", self.asefile_frame.as_deref().map(clean_frame).unwrap_or_else(|| "?".into()), normalise_digits(&self.message))
+        let site = self.repo_file().or_else(|| self.asefile_frame.as_deref().map(clean_frame)).unwrap_or_else(|| "?".into());
+        format!("panic|{}|{}", site, normalise_digits(&self.message))
     }
 }
 
